@@ -730,3 +730,35 @@ Example c07_nonvacuous_glued_align :
   let b := bs "$T1 $esp 16 $T0 1 = @ = $eip   .raSearch ^ =" in
   win_tokens a = win_tokens b /\ contains_at a = contains_at b /\ contains_at a = true.
 Proof. vm_compute. repeat split; reflexivity. Qed.
+
+(* ... and with all three kinds of record in one stack: FPO without base pointer (ebp passed through), FPO with base
+   pointer (the caller's ebp is the word at esp + gcps + saved - 8), frame data with the .raSearch program (ebp passed
+   through, being a predefined variable).  fpo_chain_bp names each caller's eip, esp and ebp. *)
+Theorem c07_win_recovers_chain_bp :
+  forall mem in_stack lookup (acts : list act_bp) below eip esp ebp,
+    win_layout_bp mem in_stack lookup (is_nil below) (spec_gcps below) eip esp ebp acts ->
+    0 <= esp ->
+    win_walk (length acts) mem in_stack lookup below (mkX eip esp ebp) = fpo_chain_bp (spec_gcps below) esp acts.
+Proof. exact win_recovers_chain_bp. Qed.
+Print Assumptions c07_win_recovers_chain_bp.
+
+Example c07_nonvacuous_win_layout_bp :
+  (* the stack of c07_nonvacuous_fpo_layout_bp with the leaf and g described by frame-data records, f by an FPO record
+     with base pointer *)
+  let mem := mem_read 4 2147483648
+     [1;1;1;1; 80;32;0;64;   64;0;0;128; 9;9;9;9; 16;48;0;64;   4;4;4;4; 5;5;5;5; 0;64;0;64;  0;0;0;0] in
+  let leaf := mkWin 4096 256 0 0 0 0 4 0 (ProgramString prog_ra_search_b) in
+  let f := mkWin 8192 256 0 0 4 8 0 0 (AllocatesBasePointer true) in
+  let g := mkWin 12288 256 0 0 0 0 4 0 (ProgramString prog_ra_search_b) in
+  let lookup := fun ip => if (1073745920 <=? ip) && (ip <? 1073746176) then Some (leaf, None)
+                          else if (1073750016 <=? ip) && (ip <? 1073750272) then Some (f, Some 4)
+                          else if (1073754112 <=? ip) && (ip <? 1073754368) then Some (g, Some 0) else None in
+  let acts := [(leaf, None, 1073750096, 7); (f, Some 4, 1073754128, 2147483712); (g, Some 0, 1073758208, 2147483712)] in
+  win_layout_bp mem (fun sp => (2147483648 <=? sp) && (sp <? 2147483700)) lookup true 0 1073745936 2147483648 7 acts /\
+  win_walk 3 mem (fun sp => (2147483648 <=? sp) && (sp <? 2147483700)) lookup [] (mkX 1073745936 2147483648 7) =
+    [mkX 1073750096 2147483656 7; mkX 1073754128 2147483668 2147483712; mkX 1073758208 2147483680 2147483712].
+Proof.
+  split; [|vm_compute; reflexivity].
+  cbn [win_layout_bp]. repeat split; try reflexivity; try (intro Hc; discriminate Hc); try (vm_compute; intro Hc; discriminate Hc);
+    try (vm_compute; reflexivity); try (intros _ Hc; discriminate Hc).
+Qed.
